@@ -30,6 +30,10 @@ def run(ctx):
     ctx.selftest_binding("arith-random", "trace/Trace_Expr.tla", "trace/Trace_Expr.cfg", tr, "expr", corrupt)
     tr2 = ctx.record("arith-data", "expr", ["-mode", "data", "-n", 8000 if th else 600])
     ctx.validate("arith-data-validate", "trace/Trace_Expr.tla", "trace/Trace_Expr.cfg", tr2, "expr", shards=8 if th else 2, timeout=3400)
+    # "decimal literals enter the computation with exactly the value they print as": seeded random spellings (digit separators,
+    # fractions, exponents, long parts) lexed by the specification from the bytes and compared with the value the real code gives them
+    lt = ctx.record("literals-random", "parse", ["-mode", "numbers", "-n", 40000 if th else 3000, "-seed", ctx.seed * 100 + 44])
+    ctx.validate("literals-random-validate", "trace/Trace_Parse.tla", "trace/Trace_Parse.cfg", lt, "parse", shards=14 if th else 3)
     # random arithmetic programs (literals of up to 34 digits, exponents to +-40, nested + - * / %, numeric builtins, locals),
     # every node judged on its own from the values its children were observed to have: intermediate results, not only roots
     nd = ctx.record("nodes-arith", "nodes", ["-n", 8000 if th else 500, "-profile", "arith", "-seed", ctx.seed * 100 + 54])
